@@ -42,8 +42,21 @@ fn position_to_index(source: &[char], position: Position) -> usize {
         .take(position.line as usize + 1)
         .collect();
 
-    let line_end_idx = newline_indices.pop().unwrap_or(source.len());
-    let line_start_idx = newline_indices.pop().unwrap_or(0);
+    // The last line is not followed by a newline: it ends where the text ends.
+    let line_end_idx = if newline_indices.len() > position.line as usize {
+        newline_indices.pop().unwrap()
+    } else {
+        source.len()
+    };
+    let mut line_start_idx = newline_indices.pop().unwrap_or(0);
+    let mut line_end_idx = line_end_idx;
+
+    // Some clients address the end of the text as a column on the empty line after the final
+    // newline (#250). Resolve such a position on the line before, as before.
+    if line_start_idx == line_end_idx && position.character > 0 {
+        line_end_idx = line_start_idx;
+        line_start_idx = newline_indices.pop().unwrap_or(0);
+    }
 
     let mut traversed_cols = 0;
 
